@@ -430,6 +430,35 @@ def probe_state(sc, d, snap, wl, label, earlier_rows, probes=("P1", "P1b", "P2",
             oc.append("P1b=" + j.split(":")[0])
         except Exception:
             oc.append("P1b=raises")
+    # P1g: the workers simply carry on - every batch file that is there is
+    # grown (nothing is re-sown or discarded) - and then a plain reap
+    if "P1" in probes and wl in ("sow", "grow"):
+        fsseam.restore(d, snap)
+        try:
+            import glob
+            from xyzpy.gen.cropping import grow as _grow
+            ids = sorted(int(os.path.basename(p_).split("-")[-1].split(".")[0])
+                         for p_ in glob.glob(os.path.join(
+                             d, ".xyz-k", "batches", "xyz-batch-*.jbdmp")))
+            for i in ids:
+                try:
+                    _grow(i, crop=sc.fresh_crop(d), verbosity=0)
+                except Exception:
+                    pass
+            res = sc.fresh_crop(d).reap()
+            j = sc.judge_reaped(res)
+            if j != "exact":
+                vio.append((key("P1g", "silently-" + j.split(":")[0]),
+                            "at %s, after growing the batch files that are "
+                            "there, reap() succeeded with %s" % (label, j)))
+            dj = sc.judge_data(d, earlier_rows)
+            if dj:
+                vio.append((key("P1g", dj), "at %s, after growing the batch "
+                            "files that are there, reap() left the data "
+                            "file: %s" % (label, dj)))
+            oc.append("P1g=" + j.split(":")[0])
+        except Exception as e:
+            oc.append("P1g=raises")
     if "P2" in probes:
         fsseam.restore(d, snap)
         try:
